@@ -842,6 +842,26 @@ fn c05_conc(rng: &mut Rng, name: &'static str) -> Prepared {
     prep(conc(rng, "C05", name, &p))
 }
 
+/// One or two keys that live and die by TTL while callers delete and re-create them and the
+/// sweeper is (often) stalled in the middle of a sweep: the sweeper's "release the weight of the
+/// id, then remove the store entry of its key" races the worker's delete + re-put of that key.
+fn c05_reput_vs_sweep(rng: &mut Rng, name: &'static str) -> Prepared {
+    let mut p = ConcParams::base();
+    p.keys = (1, 2);
+    p.threads = (2, 4);
+    p.ops = (3, 9);
+    p.mix = [30, 30, 22, 10, 2, 0, 4, 2];
+    p.ttl_pct = 65;
+    p.wait_mix = [45, 35, 20];
+    p.extra_sweeps = true;
+    p.stall_pct = 70;
+    p.stall_roles = vec![RoleName::Sweeper, RoleName::Sweeper, RoleName::Worker];
+    p.tiny_queue_pct = 30;
+    p.valueless_pct = 20;
+    p.pressure = *rng.pick(&[Pressure::Fits, Pressure::Tight]);
+    prep(conc(rng, "C05", name, &p))
+}
+
 fn c11_conc(rng: &mut Rng, name: &'static str) -> Prepared {
     let mut p = ConcParams::base();
     p.keys = (3, 8);
@@ -1072,9 +1092,10 @@ pub fn plan(property: &str) -> Vec<Stratum> {
         ],
         "C04" => vec![Stratum { name: "conc-delete-race", share: 6, gen: c04_conc }, Stratum { name: "seq-model", share: 4, gen: c04_seq }],
         "C05" => vec![
-            Stratum { name: "conc-same-key-races", share: 6, gen: c05_conc },
+            Stratum { name: "conc-same-key-races", share: 5, gen: c05_conc },
             Stratum { name: "conc-shrink-vs-sweep", share: 2, gen: c05_shrink },
-            Stratum { name: "seq-model", share: 2, gen: c05_seq },
+            Stratum { name: "conc-reput-vs-sweep", share: 2, gen: c05_reput_vs_sweep },
+            Stratum { name: "seq-model", share: 1, gen: c05_seq },
         ],
         "C06" => vec![Stratum { name: "seq-admission", share: 7, gen: c06_seq }, Stratum { name: "seq-admission-racing-consumer", share: 3, gen: c06_seq_race }],
         "C07" => vec![Stratum { name: "seq-lifecycle", share: 7, gen: c07_seq }, Stratum { name: "conc-same-key-puts", share: 3, gen: c07_conc }],
